@@ -6,6 +6,8 @@
 //! a behaviour of the specification.  The harness itself never judges.
 
 mod core_drv;
+mod persist_drv;
+mod sock_drv;
 mod util;
 
 fn main() {
@@ -18,6 +20,8 @@ fn main() {
     std::panic::set_hook(Box::new(|_| {}));
     let code = match args[1].as_str() {
         "core-run" => core_drv::main_run(&args[2..]),
+        "persist-run" => persist_drv::main_run(&args[2..]),
+        "sock-run" => sock_drv::main_run(&args[2..]),
         other => {
             eprintln!("unknown command {other}");
             2
